@@ -285,17 +285,22 @@ func drawPlan(t *simrt.Tape, tier string) *plan {
 	return p
 }
 
+func fmtOps(p *plan, ops []op) string {
+	var sb strings.Builder
+	for _, o := range ops {
+		fmt.Fprintf(&sb, " +%v %s", o.think, opNames[o.kind])
+		if o.kind == opAdd && p.variant == vChunk {
+			fmt.Fprintf(&sb, "(%dB)", o.size)
+		}
+	}
+	return strings.TrimSpace(sb.String())
+}
+
 func (p *plan) String() string {
 	var sb strings.Builder
 	fmt.Fprintf(&sb, "%s threshold=%d interval=%v burst=%v cbWork=%v panicAt=%d eventual=%v midWaiter=%v", vNames[p.variant], p.threshold, p.interval, p.burst, p.cbWork, p.panicAt, p.eventual, p.midWaiter)
 	for i, ops := range p.prods {
-		fmt.Fprintf(&sb, " | P%d:", i)
-		for _, o := range ops {
-			fmt.Fprintf(&sb, " +%v %s", o.think, opNames[o.kind])
-			if o.kind == opAdd && p.variant == vChunk {
-				fmt.Fprintf(&sb, "(%dB)", o.size)
-			}
-		}
+		fmt.Fprintf(&sb, " | P%d: %s", i, fmtOps(p, ops))
 	}
 	return sb.String()
 }
@@ -580,7 +585,7 @@ func body(r *simrt.Run, tier string) {
 		r.Logf("plan: %s", p)
 	}
 	r.Sample(map[string]any{"executor": vNames[p.variant], "threshold": p.threshold, "interval": p.interval.String(), "burst": len(p.burst),
-		"producers": len(p.prods), "first_producer": fmt.Sprint(p.prods[0]), "callback_work": fmt.Sprint(p.cbWork), "panic_at_invocation": p.panicAt,
+		"producers": len(p.prods), "first_producer": fmtOps(p, p.prods[0]), "callback_work": fmt.Sprint(p.cbWork), "panic_at_invocation": p.panicAt,
 		"eventual_phase": p.eventual, "concurrent_waiter_at": p.midWaiter.String()})
 	r.Probe("variant-" + vNames[p.variant][:4])
 
@@ -648,12 +653,17 @@ func body(r *simrt.Run, tier string) {
 	// background goroutine) alone has to get every accepted task to the callback
 	if p.eventual {
 		r.Probe("eventual-phase")
-		budget := 300*p.interval + 10*time.Minute
-		for spent := time.Duration(0); spent < budget; spent += 5 * p.interval {
+		// generous: the real executor needs at most two intervals plus the running callbacks
+		budget := 200*p.interval + 30*time.Second
+		step := 5 * p.interval
+		for spent := time.Duration(0); spent < budget; spent += step {
 			if never, running := w.unexecuted(); len(never) == 0 && len(running) == 0 {
 				break
 			}
-			r.Sleep(5 * p.interval)
+			if spent >= 30*p.interval {
+				step = budget / 8
+			}
+			r.Sleep(step)
 		}
 		r.Probe("oracle")
 		if never, running := w.unexecuted(); len(never) > 0 || len(running) > 0 {
